@@ -10,6 +10,7 @@ FUNCTIONS = [
     {"q": _C + "_xyz_to_lonlat_rad_scalar", "standin": {}},
     {"q": _C + "_xyz_to_lonlat_rad_no_norm", "standin": {}},
     {"q": _C + "_xyz_to_lonlat_deg", "standin": {}},
+    _C + "_set_desired_longitude_range",
 ]
 STANDINS = ["coords"]
 ASSUMPTIONS = [
